@@ -123,6 +123,9 @@ inductive Ev where
   /-- the master object of this run does not define valid_read / valid_write at all (`true`): as coded the
       driver then treats every path as approved and there is nothing to log -/
   | mode (masterAbsent : Bool)
+  /-- the editor asked the master where to save the buffer of a user who went net-dead
+      (get_save_file_name (stored name)) and was told `name` -/
+  | edsave (stored : CStr) (name : CStr)
   /-- a nested efun call `g (args)` by `who` (the master, inside a consultation) with everything it did; it has
       its OWN approvals: nothing it was granted licenses the outer call and vice versa -/
   | nest (g : String) (who : String) (args : List CStr) (inner : List NEv)
@@ -310,6 +313,11 @@ def judgeStep (s : JState) (e : Ev) : JState :=
       else s.flag "fs-unmediated" s!"{s.efun}: {fn} {if w then "w" else "r"} {showP p} without a matching approval"
   | .mode b => { s with absent := b }
   | .nest g _ _ inner => { s with bad := judgeNest g inner ++ s.bad }
+  | .edsave _ name =>
+    -- the approving authority named the file itself: that counts as a write approval of exactly that path (one
+    -- leading slash removed); like every approval it licenses nothing unless the path is legal
+    if s.efun == "ed" then { s with approvals := ⟨true, stripOneSlash name⟩ :: s.approvals }
+    else s.flag "edsave-outside-ed" s!"{s.efun}: save name {showP name}"
   | .note _ => s
 
 def judgeEv (evs : List Ev) : List Violation :=
